@@ -294,6 +294,92 @@ static int r_spai0(const Witness &w) {
     return 0;
 }
 
+// ---------------------------------------------------------------------------------------------
+// 5. ilu0 constructor: pattern from the witness, synthetic values (dominant diagonal); oracle = the structure clauses of the unit,
+// and natively also the property itself: ((I + L)(D^-1 + U))_ij == a_ij on the pattern of A
+typedef relaxation::ilu0<Backend> Ilu0;
+static int ilu0_on(const Crs &A, bool expect_throw, int expect_dropped) {
+    const ptrdiff_t n = A.nrows;
+    print_crs("A", A);
+    Ilu0::params prm; prm.solve.serial = true;
+    std::unique_ptr<Ilu0> S;
+    arm();
+    try { S.reset(new Ilu0(A, prm, Backend::params())); }
+    catch (const std::exception &e) {
+        std::cout << "exception: " << e.what() << std::endl;
+        if (!expect_throw) FAIL("ilu0 threw on a matrix with a non-zero diagonal and non-zero pivots: " << e.what());
+        return 0;
+    }
+    if (expect_throw) FAIL("ilu0: a row without a stored diagonal entry is not reported by an exception");
+    const Crs &L = *S->ilu->L, &U = *S->ilu->U;
+    const backend::numa_vector<double> &D = *S->ilu->D;
+    if ((ptrdiff_t)L.nrows != n || (ptrdiff_t)U.nrows != n || (ptrdiff_t)L.ncols != n || (ptrdiff_t)U.ncols != n || (ptrdiff_t)D.size() != n) FAIL("ilu0: factor dimensions");
+    if (L.ptr[0] != 0 || U.ptr[0] != 0 || (size_t)L.ptr[n] != L.nnz || (size_t)U.ptr[n] != U.nnz) FAIL("ilu0: ptr[0] != 0 or ptr[n] != nnz in a factor");
+    for (ptrdiff_t i = 0; i < n; ++i) {
+        if (L.ptr[i] > L.ptr[i + 1] || U.ptr[i] > U.ptr[i + 1]) FAIL("ilu0: ptr of a factor is not monotone");
+        for (ptrdiff_t j = L.ptr[i]; j < L.ptr[i + 1]; ++j) {
+            if (!(L.col[j] >= 0 && L.col[j] < i)) FAIL("ilu0: L(" << i << "," << L.col[j] << ") is not strictly left of the diagonal");
+            if (j + 1 < L.ptr[i + 1] && !(L.col[j] < L.col[j + 1])) FAIL("ilu0: columns of L row " << i << " not strictly ascending");
+            if (L.val[j] == 0) FAIL("ilu0: a zero is stored in L(" << i << "," << L.col[j] << ")");
+        }
+        for (ptrdiff_t j = U.ptr[i]; j < U.ptr[i + 1]; ++j) {
+            if (!(U.col[j] > i && U.col[j] < n)) FAIL("ilu0: U(" << i << "," << U.col[j] << ") is not strictly right of the diagonal / out of range");
+            if (j + 1 < U.ptr[i + 1] && !(U.col[j] < U.col[j + 1])) FAIL("ilu0: columns of U row " << i << " not strictly ascending");
+            if (U.val[j] == 0) FAIL("ilu0: a zero is stored in U(" << i << "," << U.col[j] << ")");
+        }
+    }
+    if ((ptrdiff_t)(L.nnz + U.nnz) + n + expect_dropped != A.ptr[n]) FAIL("ilu0: nnz(L) + nnz(U) + n = " << L.nnz + U.nnz + n << " but A has " << A.ptr[n] << " entries of which " << expect_dropped << " become exactly zero");
+    // dense factors and the defining identity on the pattern
+    std::vector<double> Lf(n * n, 0.0), Uf(n * n, 0.0);
+    for (ptrdiff_t i = 0; i < n; ++i) {
+        Lf[i * n + i] = 1.0; Uf[i * n + i] = 1.0 / D[i];
+        for (ptrdiff_t j = L.ptr[i]; j < L.ptr[i + 1]; ++j) Lf[i * n + L.col[j]] = L.val[j];
+        for (ptrdiff_t j = U.ptr[i]; j < U.ptr[i + 1]; ++j) Uf[i * n + U.col[j]] = U.val[j];
+    }
+    for (ptrdiff_t i = 0; i < n; ++i) for (ptrdiff_t j = A.ptr[i]; j < A.ptr[i + 1]; ++j) {
+        double s = 0; ptrdiff_t c = A.col[j];
+        for (ptrdiff_t k = 0; k < n; ++k) s += Lf[i * n + k] * Uf[k * n + c];
+        if (!(std::fabs(s - A.val[j]) <= 1e-10 * (1 + std::fabs(A.val[j])))) FAIL("ilu0: (L U)(" << i << "," << c << ") = " << s << " but a_ij = " << A.val[j] << " on the pattern of A");
+    }
+    return 0;
+}
+static int r_ilu0(const Witness &w) {
+    std::shared_ptr<Crs> A;
+    try { A = crs_from(w, "A"); } catch (...) { std::cout << "witness does not describe a matrix" << std::endl; return 3; }
+    const ptrdiff_t n = A->nrows;
+    if ((ptrdiff_t)A->ncols != n || !rows_sorted(*A, true)) { std::cout << "witness not square / rows not strictly ascending" << std::endl; return 3; }
+    bool nodiag = false;
+    for (ptrdiff_t i = 0; i < n; ++i) { bool d = false; for (ptrdiff_t j = A->ptr[i]; j < A->ptr[i + 1]; ++j) { if (A->col[j] == i) d = true; A->val[j] = (A->col[j] == i) ? 8.0 + i : 0.5 + 0.125 * j; } if (!d) nodiag = true; }
+    if (nodiag && (int)w.num("D_DIAG", 1) == 1) { std::cout << "witness lacks a diagonal entry" << std::endl; return 3; }
+    int rc = ilu0_on(*A, nodiag, 0);
+    if (rc != 0) return rc;
+    if (nodiag) return 0;
+    // regularised input: an entry of L becomes exactly zero during the elimination (2 - 2*1) and must be dropped
+    std::cout << "-- fixed input with an exact cancellation: L(2,1) = 2 - 2*1 = 0 must be dropped" << std::endl;
+    Crs B; B.set_size(3, 3, true);
+    const ptrdiff_t bp[4] = {0, 2, 3, 6}, bc[6] = {0, 1, 1, 0, 1, 2}; const double bv[6] = {1, 1, 1, 2, 2, 1};
+    for (int i = 0; i < 4; ++i) B.ptr[i] = bp[i];
+    B.set_nonzeros(6);
+    for (int j = 0; j < 6; ++j) { B.col[j] = bc[j]; B.val[j] = bv[j]; }
+    rc = ilu0_on(B, false, 1);
+    if (rc != 0) return rc;
+    std::cout << "-- fixed input with a stored zero in U followed by a kept entry: U(0,1) = 0 is dropped, U(0,2) keeps its column" << std::endl;
+    Crs Cc; Cc.set_size(3, 3, true);
+    const ptrdiff_t cp[4] = {0, 3, 4, 5}, cc[5] = {0, 1, 2, 1, 2}; const double cv[5] = {1, 0, 1, 1, 1};
+    for (int i = 0; i < 4; ++i) Cc.ptr[i] = cp[i];
+    Cc.set_nonzeros(5);
+    for (int j = 0; j < 5; ++j) { Cc.col[j] = cc[j]; Cc.val[j] = cv[j]; }
+    rc = ilu0_on(Cc, false, 1);
+    if (rc != 0) return rc;
+    std::cout << "-- fixed input with an exactly zero pivot: d_11 = 1 - 1*1 = 0 must be reported by an exception" << std::endl;
+    Crs Z; Z.set_size(2, 2, true); Z.ptr[1] = 2; Z.ptr[2] = 4; Z.set_nonzeros(4);
+    for (int j = 0; j < 4; ++j) { Z.col[j] = j % 2; Z.val[j] = 1.0; }
+    print_crs("A", Z);
+    try { Ilu0::params prm; prm.solve.serial = true; Ilu0 S(Z, prm, Backend::params()); }
+    catch (const std::exception &e) { std::cout << "exception: " << e.what() << std::endl; return 0; }
+    FAIL("ilu0: zero pivot (d_11 = 1 - 1*1) not reported by an exception");
+}
+
 int main(int argc, char **argv) {
     if (argc < 3) return 2;
     std::string unit = argv[1];
@@ -305,6 +391,7 @@ int main(int argc, char **argv) {
     if (unit == "sptr_solve_upper") return r_sptr_solve<false>(w);
     if (unit == "gs_parallel_sweep") return r_gs_parallel_sweep(w);
     if (unit == "spai0_ctor") return r_spai0(w);
+    if (unit == "ilu0_structure") return r_ilu0(w);
     std::cout << "no replay for unit " << unit << std::endl;
     return 3;
 }
